@@ -81,6 +81,26 @@ def gen_cases(rng, tier):
                 fails = rng.choice(["-", "-", "-", "1", "2", "3", "1,2", "1,2,3"])
                 ops += ["agg scan %s %d" % (fails, rng.choice([0, 1])), "agg snap", "agg expiry"]
         cases.append(Case(ops, "random", True, True))
+    # the same, the records arriving in data sets of 1..4 records of mixed keys which a collecting process decoded (`agg msg`)
+    rng2 = random.Random(rng.randrange(1 << 30))
+    for _ in range(60 if tier == "quick" else 3000):
+        ops = ["agg new %d %d" % (A, I)]
+        cnt = 0
+        for _ in range(rng2.randint(5, 80)):
+            r = rng2.random()
+            if r < 0.45:
+                recs = []
+                for _ in range(rng2.choice([1, 2, 2, 3, 4])):
+                    cnt += 1
+                    f = rng2.choice([AG.intra, AG.intra, AG.inter_src, AG.inter_dst])
+                    recs.append(f(rng2.choice([1, 2, 3]), 100, 100 + cnt, [x * cnt for x in STATS]))
+                ops += [AG.msg_op(recs), "agg snap"]
+            elif r < 0.75:
+                ops += ["agg adv %d" % rng2.choice([0, 1, A - 1, A, A + 1, I - A, I, I + 1, 50]), "agg snap"]
+            else:
+                fails = rng2.choice(["-", "-", "-", "1", "2", "3", "1,2", "1,2,3"])
+                ops += ["agg scan %s %d" % (fails, rng2.choice([0, 1])), "agg snap", "agg expiry"]
+        cases.append(Case(ops, "random-msg", True, True))
     return cases
 
 
